@@ -36,9 +36,14 @@ ASSUME /\ ToSet(Hdr.fields) = InterfaceMethods
 
 \* Is the observed error r of the class the specification prescribes?
 ErrClass(r, class, e) ==
-  CASE class = "ctor" -> ~r.nil /\ r.tag = e.ctor[1].ret          \* exactly the constructor's error
+  CASE class = "ctor" -> IF e.ctor[1].ret = "nil" THEN r.nil        \* the constructor's result, nil included
+                         ELSE ~r.nil /\ r.tag = e.ctor[1].ret       \* exactly the constructor's error value
     [] class = "unsupported" -> ~r.nil /\ r.unsupported           \* errors.Is(err, ErrUnsupported)
     [] OTHER -> FALSE
+
+\* What a consumer is handed of the delegate's programmed pairs ys.
+IsErrSeq(ys) == [i \in 1..Len(ys) |-> ~ys[i].e.nil]
+Handed(consumer, ys) == SubSeq(ys, 1, Seen(consumer, IsErrSeq(ys)))
 
 Observed(e, m, o) ==
   LET x == Effects(m, o) IN
@@ -47,26 +52,30 @@ Observed(e, m, o) ==
   /\ [i \in 1..Len(e.calls) |-> e.calls[i].field] = x.stubs
   /\ o.kind = "delegate" => e.calls[1].args = e.passed
   /\ Len(e.ctor) = x.ctors
+  /\ o.kind = "custom" => ~CtorPanics(e.ck)                       \* a constructor's panic is not swallowed
   /\ x.ctors = 1 => e.ctor[1].ctx = e.passed[1]                   \* the constructor is handed the caller's context
   \* results
   /\ IF x.values = "stub" THEN e.got = e.prog.vals
      ELSE \A i \in 1..Len(e.got) : e.got[i] = "zero"
   /\ e.iter = x.iter
   /\ IF ~x.iter
-     THEN /\ e.yields = <<>> /\ e.yields1 = <<>> /\ ~e.seqnil
+     THEN /\ e.yields = <<>> /\ e.yields1 = <<>> /\ e.yieldsE = <<>> /\ e.yieldsA = <<>> /\ ~e.seqnil
           /\ IF x.error = "stub" THEN e.err = e.prog.err ELSE ErrClass(e.err, x.error, e)
      ELSE IF x.yields = "stub"
      THEN \* the delegate's iterator, verbatim: also when it is the nil iterator
           /\ e.seqnil = e.prog.seqnil
-          /\ IF e.seqnil THEN e.yields = <<>> /\ e.yields1 = <<>>
-             ELSE /\ e.yields = e.prog.yields
-                  /\ e.yields1 = SubSeq(e.prog.yields, 1, 1)
+          /\ IF e.seqnil THEN e.yields = <<>> /\ e.yields1 = <<>> /\ e.yieldsE = <<>> /\ e.yieldsA = <<>>
+             ELSE /\ Len(e.prog.yields) > 0
+                  /\ e.yields = Handed("all", e.prog.yields)
+                  /\ e.yields1 = Handed("first", e.prog.yields)
+                  /\ e.yieldsE = Handed("aterr", e.prog.yields)
+                  /\ e.yieldsA = Handed("aftererr", e.prog.yields)
      ELSE \* exactly one pair (zero value, error), whatever the consumer answers
           /\ ~e.seqnil
           /\ Len(e.yields) = 1
           /\ e.yields[1].v = "zero"
           /\ ErrClass(e.yields[1].e, x.error, e)
-          /\ e.yields1 = e.yields
+          /\ e.yields1 = e.yields /\ e.yieldsE = e.yields /\ e.yieldsA = e.yields
   \* the method name reported (observation only)
   /\ StrictErrName =>
        /\ x.ctors = 1 => e.ctor[1].name = ErrName(m)
@@ -78,10 +87,22 @@ Step(e) ==
   /\ ToSet(e.F) \subseteq Methods
   /\ e.nilrecv => (e.F = <<>> /\ ~e.custom)
   /\ e.cx \in CtxVals
+  /\ e.ck \in CtorKinds \cup {"none"} /\ (e.custom <=> e.ck # "none")
   /\ OwnFieldOnlyAt(e.m, ToSet(e.F), e.custom, e.nilrecv)
   \* the outcome is judged whatever the arguments were (e.av: the abstract argument values, <<>> if generated;
   \* e.cx: the kind of context really passed)
   /\ Observed(e, e.m, CallWithArgs(e.m, ToSet(e.F), e.custom, e.nilrecv, e.av, e.cx))
+
+\* The only panic the specification has: the constructor's own, propagated (no stub ran, the
+\* constructor ran once, and the value the caller recovered is the value the constructor threw).
+PanicStep(e) ==
+  /\ e.m \in Methods /\ ToSet(e.F) \subseteq Methods
+  /\ CallWithArgs(e.m, ToSet(e.F), e.custom, e.nilrecv, e.av, e.cx).kind = "custom"
+  /\ CtorPanics(e.ck)
+  /\ e.calls = <<>>
+  /\ Len(e.ctor) = 1
+  /\ e.pval # "-" /\ e.pval = e.ctor[1].ret
+  /\ e.ctor[1].ctx = e.passed[1]
 
 TInit == l = 2
 TNext ==
@@ -90,7 +111,8 @@ TNext ==
   /\ LET e == Trace[l] IN
      CASE e.op = "reset" -> TRUE
        [] e.op = "call" -> Step(e)
-       [] OTHER -> FALSE          \* "panic": no such behaviour in the specification
+       [] e.op = "panic" -> PanicStep(e)   \* any other panic: no such behaviour in the specification
+       [] OTHER -> FALSE
 TSpec == TInit /\ [][TNext]_l
 
 \* The whole trace was consumed: one state per line after the header.
